@@ -208,6 +208,24 @@ def _kinematics(xi):
         k.prove_eq("a_P_u = d a_P/du", rod.a_P_u(t, qe, ue, ud, xi, B), k.jac(lambda u_: rod.a_P(t, qe, u_, ud, xi, B), ue), tol=1e-6)
         k.prove_eq("B_J_R = d B_Omega/du", rod.B_J_R(t, qe, xi), k.jac(lambda u_: rod.B_Omega(t, qe, u_, xi), ue), tol=1e-6)
         k.prove_eq("B_Omega_q = d B_Omega/dq", rod.B_Omega_q(t, qe, ue, xi), k.jac(lambda q_: rod.B_Omega(t, q_, ue, xi), qe), tol=1e-6)
+        # frame: the kinematic routines are functions of their arguments - they share memoised `_eval/_deval`
+        # results and must not modify them (a second query at the same state returns the same value)
+        for nm, call in (
+            ("r_OP", lambda: rod.r_OP(t, qe, xi, B)),
+            ("r_OP_q", lambda: rod.r_OP_q(t, qe, xi, B)),
+            ("A_IB_q", lambda: rod.A_IB_q(t, qe, xi)),
+            ("v_P", lambda: rod.v_P(t, qe, ue, xi, B)),
+            ("v_P_q", lambda: rod.v_P_q(t, qe, ue, xi, B)),
+            ("J_P", lambda: rod.J_P(t, qe, xi, B)),
+            ("J_P_q", lambda: rod.J_P_q(t, qe, xi, B)),
+            ("a_P", lambda: rod.a_P(t, qe, ue, ud, xi, B)),
+            ("a_P_q", lambda: rod.a_P_q(t, qe, ue, ud, xi, B)),
+            ("a_P_u", lambda: rod.a_P_u(t, qe, ue, ud, xi, B)),
+            ("B_J_R", lambda: rod.B_J_R(t, qe, xi)),
+            ("B_Omega_q", lambda: rod.B_Omega_q(t, qe, ue, xi)),
+        ):
+            first = np.array(call(), copy=True)
+            k.prove_eq(f"{nm}: a repeated query at the same state returns the same value", call(), first, tol=1e-13)
         if xi in (0.0, 1.0):
             node = 0 if xi == 0.0 else 1
             k.prove_eq("nodal interpolation: r_OP = nodal position", rod.r_OP(t, qe, xi), qe[rod.nodalDOF_element_r[node]], tol=1e-12)
@@ -276,6 +294,11 @@ def b_rods(tier, seed):
                 checks.append((f"xi={xi}: J_P_q", relerr(rod.J_P_q(t, qe, xi, B), fd(lambda q_: rod.J_P(t, q_, xi, B), qe))))
                 checks.append((f"xi={xi}: a_P_q", relerr(rod.a_P_q(t, qe, ue, ude, xi, B), fd(lambda q_: rod.a_P(t, q_, ue, ude, xi, B), qe))))
                 checks.append((f"xi={xi}: a_P_u", relerr(rod.a_P_u(t, qe, ue, ude, xi, B), fd(lambda u_: rod.a_P(t, qe, u_, ude, xi, B), ue))))
+                # second query at the same state with another offset (memoised _eval/_deval results must not be modified)
+                B2 = rng.normal(size=3)
+                checks.append((f"xi={xi}: r_OP_q, second query at the same state", relerr(rod.r_OP_q(t, qe, xi, B2), fd(lambda q_: rod.r_OP(t, q_, xi, B2), qe))))
+                checks.append((f"xi={xi}: v_P_q, second query at the same state", relerr(rod.v_P_q(t, qe, ue, xi, B2), fd(lambda q_: rod.v_P(t, q_, ue, xi, B2), qe))))
+                checks.append((f"xi={xi}: J_P, second query at the same state", relerr(rod.J_P(t, qe, xi, B2), fd(lambda u_: rod.v_P(t, qe, u_, xi, B2), ue))))
                 if interp in ("Quaternion", "SE3"):
                     A = rod.A_IB(t, qe, xi)
                     checks.append((f"xi={xi}: A_IB in SO(3)", max(np.abs(A.T @ A - np.eye(3)).max(), abs(np.linalg.det(A) - 1))))
